@@ -6,6 +6,8 @@ mkdir -p /tmp/par
 for k in $(seq 1 $W); do
   [ -d /tmp/par/repo$k ] || git -C /repo worktree add -f /tmp/par/repo$k HEAD >/dev/null 2>&1
   git -C /tmp/par/repo$k checkout -- . 2>/dev/null
+  git -C /tmp/par/repo$k clean -fdq 2>/dev/null
+  git -C /tmp/par/repo$k checkout -q --detach "$(git -C /repo rev-parse HEAD)"
   rsync -a --delete --exclude seeded /verif/ /tmp/par/verif$k/
   mkdir -p /tmp/par/verif$k/seeded
 done
